@@ -78,9 +78,14 @@ def node_order(m):
 
 
 def weights(rng, ns, zero=False):
-    style = rng.randrange(4)
+    style = rng.randrange(5)
     if style == 0:
         return []                                   # all 1: every path ties with the equally long ones
+    if style == 4:
+        # magnitudes that the adapter expresses in DIFFERENT EventTime units (us / ms / s): 2 ms must outweigh 700 us
+        lo = 0 if zero else 1
+        return [[n, rng.choice([rng.randint(lo, 999), 1000 * rng.randint(1, 3), 10 ** 6 * rng.randint(1, 2)])]
+                for n in ns if rng.random() < 0.85]
     hi = [2, 3, 9, 1000][rng.randrange(4)]
     lo = 0 if zero else 1
     return [[n, rng.randint(lo, hi)] for n in ns if rng.random() < 0.85]
